@@ -450,6 +450,17 @@ func c04(r *core.Run) {
 						}
 					}
 				}
+				// ... or h only makes the closure for its single caller, which hands it to the enqueue
+				if site := closureMaker(p, h); enq == nil && site != nil && site.Value() != nil {
+					h = site.Parent()
+					for _, hc := range core.Calls(h) {
+						for _, a := range hc.Common().Args {
+							if a == site.Value() {
+								enq = hc
+							}
+						}
+					}
+				}
 				if enq == nil || core.IsGo(enq) || core.IsDefer(enq) || enq.Common().StaticCallee() == nil {
 					r.Bad("R3", core.FuncName(h), "closure-passed-to-enqueue", p.Pos(h.Pos()), "the processing closure is not passed to a statically-resolved enqueue call")
 					continue
